@@ -16,7 +16,11 @@ Lemma lookup_spec keys q k :
   (forall k, In k keys -> wf_path k) -> wf_path q ->
   (In k (lookup keys q) <-> In k keys /\ inside q k = true).
 Proof.
-  intros Hk Hq. unfold lookup, trie_prefixes. rewrite !filter_In. split.
+  intros Hk Hq.
+  assert (E : lookup keys q = filter (fun k => on_boundary k q) (trie_prefixes keys q)).
+  { unfold lookup. apply filter_ext_in. intros a Ha. unfold trie_prefixes in Ha. apply filter_In in Ha as [Ha _].
+    apply on_boundary_or_slash_wf. apply Hk. exact Ha. }
+  rewrite E. unfold trie_prefixes. rewrite !filter_In. split.
   - intros [[Hin Hp] Hb]. split; auto. rewrite <- path_lemma by auto.
     unfold path_prefix. destruct k; [discriminate|]. rewrite Hp, Hb. reflexivity.
   - intros [Hin Hi]. rewrite <- path_lemma in Hi by auto.
